@@ -99,6 +99,67 @@ fn union(a: &Interp, b: &Interp) -> Interp {
     out
 }
 
+/// the same task through `anthem verify --equivalence strong`: Some(outcome) on a disagreement
+fn cli_agrees(case: &Case, problems: &[ProblemData], lt: &str, rt: &str, flags: &str, layout: usize) -> Option<Outcome> {
+    let bin = crate::cli::anthem_bin()?;
+    // only when the text denotes the generated programs (reading is C14's business)
+    if lt.parse::<asp::Program>().ok()? != case.left || rt.parse::<asp::Program>().ok()? != case.right {
+        return None;
+    }
+    let dir = crate::cli::scratch_dir("c03");
+    let out = dir.join("out");
+    std::fs::create_dir_all(&out).unwrap();
+    let mut args: Vec<String> = vec![
+        "verify".into(),
+        "--equivalence".into(),
+        "strong".into(),
+        "--no-proof-search".into(),
+        "--save-problems".into(),
+        out.to_string_lossy().to_string(),
+        "--direction".into(),
+        match direction_of(case.direction) {
+            fol::Direction::Universal => "universal".into(),
+            fol::Direction::Forward => "forward".into(),
+            fol::Direction::Backward => "backward".into(),
+        },
+        "--decomposition".into(),
+        if case.sequential { "sequential".into() } else { "independent".into() },
+        "--formula-representation".into(),
+        if case.mu { "mu".into() } else { "tau-star".into() },
+    ];
+    if !case.simplify {
+        args.push("--no-simplify".into());
+    }
+    if !case.eq_break {
+        args.push("--no-eq-break".into());
+    }
+    let layout = layout % crate::cli::STRONG_LAYOUTS;
+    args.extend(crate::cli::strong_layout(&dir, lt, rt, layout));
+    let argv: Vec<&str> = args.iter().map(|s| s.as_str()).collect();
+    let r = crate::cli::run(&bin, &argv, None);
+    let written = crate::cli::snapshot_dir(&out);
+    let _ = std::fs::remove_dir_all(&dir);
+    if r.timed_out {
+        return None;
+    }
+    let mut expected: Vec<(String, String)> = problems.iter().map(|p| (format!("{}.p", p.name), p.text.clone())).collect();
+    expected.sort();
+    if r.code != Some(0) || written != expected {
+        let differing: Vec<&String> = written.iter().filter(|w| !expected.contains(w)).map(|w| &w.0).collect();
+        return Some(Outcome::fail(
+            "cli-differs-from-library",
+            format!(
+                "C03: `verify --equivalence strong` (exit {:?}, argument layout {layout}) wrote other problems than the ones generated in-process for (left, right)\n  left: {lt}\n  right: {rt}\n  flags: {flags}\n  written: {:?}\n  expected: {:?}\n  differing: {differing:?}\n  stderr: {}",
+                r.code,
+                written.iter().map(|x| &x.0).collect::<Vec<_>>(),
+                expected.iter().map(|x| &x.0).collect::<Vec<_>>(),
+                r.stderr
+            ),
+        ));
+    }
+    None
+}
+
 impl Check for C03 {
     type Case = Case;
     fn name(&self) -> &'static str {
@@ -106,6 +167,10 @@ impl Check for C03 {
     }
     fn cases(&self, tier: Tier) -> usize {
         tier.pick(12_000, 300_000)
+    }
+    fn shrink_steps(&self) -> usize {
+        // a case costs up to a second (exact evaluation of every problem, sometimes a run of the binary)
+        300
     }
     fn strategy(&self, _tier: Tier) -> BoxedStrategy<Case> {
         // predicate names that are the h-/t-prefixed spelling of another predicate of the pool
@@ -151,7 +216,7 @@ impl Check for C03 {
             .boxed()
     }
     fn rule(&self) -> String {
-        "pair of programs (the second is the first with one rule replaced/added/dropped, reordered, identical, or unrelated) x {tau-star, mu} x direction x decomposition x simplify x eq-break x a pair (H,T), 1 in 7 with H not a subset of T; oracle: an interpretation of the h-/t-copies refutes an emitted forward (backward) problem (exact classical evaluation of the problems' syntax trees) iff H subset-of T and (H,T) satisfies the left (right) program but not the right (left) one by the reference semantics; non-trivial = H subset-of T, both verdicts definite and the axioms of some problem hold, or H not a subset of T; distinct by programs + flags + interpretation".into()
+        "pair of programs (the second is the first with one rule replaced/added/dropped, reordered, identical, or unrelated) x {tau-star, mu} x direction x decomposition x simplify x eq-break x a pair (H,T), 1 in 7 with H not a subset of T (1 pair in 3 guided: the closure of one of the programs minus an atom); oracle: an interpretation of the h-/t-copies refutes an emitted forward (backward) problem (exact classical evaluation of the problems' syntax trees) iff H subset-of T and (H,T) satisfies the left (right) program but not the right (left) one by the reference semantics; non-trivial = H subset-of T, both verdicts definite and the axioms of some problem hold, or H not a subset of T; distinct by programs + flags + interpretation; one case in twelve is also run through the command line (programs named a.lp b.lp / n.lp b.lp / as a directory / file plus its directory / v2/prog.lp v1/prog.lp, the left program always first): the files written by --save-problems must be the problems judged in-process".into()
     }
     fn run(&self, case: &Case) -> Outcome {
         let direction = direction_of(case.direction);
@@ -251,6 +316,16 @@ impl Check for C03 {
                 }
                 _ => labels.push(format!("{prefix}:inconclusive")),
             }
+        }
+        // one case in twelve also goes through the command line: the program named first is the left
+        // one and the one named second the right one, however the files are called and however the
+        // arguments reach them; the files written must be the problems judged above
+        let key = hash64(&format!("{lt}|{rt}|{flags}"));
+        if key % 12 == 0 {
+            if let Some(o) = cli_agrees(case, &problems, &lt, &rt, &flags, (key / 12) as usize) {
+                return o;
+            }
+            labels.push("through-command-line".into());
         }
         if definite == 0 {
             return Outcome::skip("no direction with two definite verdicts").labels(labels);
